@@ -87,6 +87,7 @@ type sut struct {
 	replicas map[string]*replica
 	logs     *logCapture
 	sched    *scheduler // optional store/IdP scheduler
+	replicaKey []byte   // when set, the NEXT replicas are built with this deployment key instead of the shared one
 }
 
 type replica struct {
@@ -259,7 +260,12 @@ func (s *sut) replicaMode(name, mode string) *replica {
 		}
 		rp.proxy, rp.rawSrc = p, p
 	default:
-		h, err := handler.NewStandalone(cfg, jw, oc, s.crypter)
+		cr := s.crypter
+		if s.replicaKey != nil { // a replica started with ANOTHER deployment key (no key configured / mid-rotation): it cannot read the others' cookies
+			cr = crypto.NewCrypter(s.replicaKey)
+			addSecretBytes("deployment_key", s.replicaKey)
+		}
+		h, err := handler.NewStandalone(cfg, jw, oc, cr)
 		if err != nil {
 			panic(err)
 		}
